@@ -195,6 +195,8 @@ Faults(T) ==
                          <<65,201,58,48,48,44,97,233,58,49,49>>, <<453,58,48,48,44,454,58,49,49>>,
                          \* the same algorithm twice in the same (canonical) spelling, adjacent and not: "a:00,a:ff"  "a:00,b:11,a:22"
                          <<97,58,48,48,44,97,58,102,102>>, <<97,58,48,48,44,98,58,49,49,44,97,58,50,50>>,
+                         \* two hashes of odd length (the total is even): "a:0,b:1"
+                         <<97,58,48,44,98,58,49>>,
                          \* non-ASCII capital before an ASCII capital: "E'B:00,e'b:11"
                          <<201,66,58,48,48,44,233,98,58,49,49>>}})
 \* two faults at once: rejection demanded, class free
